@@ -168,6 +168,13 @@ def gen(rng, tier, focus):
             lines.append("SQLQ %s %s %s %s 1" % (qid, h, mode, core.enc_str(txt)))
             lines.append(enc_args(args))
             stmts.append((qid, ds, opts, mode, txt, [args], m))
+        # texts the grammar rejects although a lenient front end might "clean them up"
+        for pn, (mode, txt) in enumerate([("direct", b'a = "1" ;'), ("prepared", b'a = "1";'), ("direct", b'a = "1" ; count ;'), ("tx", b' a = "1" ; '), ("prepared", b'a = "1" ;;'),
+                                          ("direct", b';a = "1"'), ("direct", b'a = "1"\x0b'), ("direct", b'\xc2\xa0a = "1"'), ("prepared", b'a = "1" -- x'), ("direct", b'a = "1" ; count,')]):
+            qid = "%s.g%d" % (h, pn)
+            lines.append("SQLQ %s %s %s %s 1" % (qid, h, mode, core.enc_str(txt)))
+            lines.append(enc_args([]))
+            stmts.append((qid, ds, opts, mode, txt, [[]], 0))
         # argument types database/sql converts before the driver sees them (valid NullString /
         # NullInt64, *string, bool), on every path
         for pn, (mode, txt, m, args) in enumerate([("prepared", b"text = $1 ; a", 1, [("NS", b"t")]), ("direct", b"text = $1 ; a", 1, [("NS", b"t")]), ("tx", b"text = $1 ; a", 1, [("PS", b"u")]),
